@@ -48,7 +48,13 @@ char *verif_dup_gk;     /* listing: the copy made of child verif_gk's name */
 /* record of the (single) recursive call made by the level under test + values the harness fixed */
 struct verif_rec_s { int calls, site; void *subtree; const char **path; dbus_bool_t create; int *iip; dbus_bool_t *em;
                      void *result; int iip_at_call; dbus_bool_t em_set, em_val;
-                     void *p3, *p4, *p5; dbus_bool_t freed; } verif_rec;
+                     void *p3, *p4, *p5; dbus_bool_t freed, cont_after; int ch_n_after; void *ch_mf_after;
+                     int unref_calls; void *unref_arg; int ch_n_at_unref; void *ch_mf_at_unref, *ch_parent_at_unref; } verif_rec;
+/* unregister recursion: values at entry of what the loop contract lists as assignable */
+/* what the tree invariant says about a child (used as precondition and in the loop invariant) */
+#define VERIF_CHILD_OK(ch, par) ((ch)->parent == (par) && (ch)->refcount.value >= 1 && (ch)->n_subtrees >= 0 && (ch)->n_subtrees <= (ch)->max_subtrees && \
+   IMP ((ch)->message_function == NULL, (ch)->unregister_function == NULL && (ch)->user_data == NULL && (ch)->n_subtrees > 0))
+void *verif_old_g, *verif_old_gp1, *verif_ud0, *verif_childp; DBusObjectPathUnregisterFunction verif_fn0;
 
 typedef struct DBusObjectSubtree DBusObjectSubtree;
 #define VERIF_FSR_PROTO(n) static DBusObjectSubtree *verif_fsr_##n (DBusObjectSubtree *subtree, const char **path, \
@@ -115,6 +121,7 @@ void dbus_free (void *memory) { free (memory); }
  * the code itself).  CBMC's built-in memmove model with a symbolic length runs out of memory (measured:
  * 7 GB on an 8-entry array). */
 static DBusObjectSubtree *g_node;
+#ifndef VERIF_NO_MEMMOVE_STUB
 void *memmove (void *dest, const void *src, size_t nbytes)
 {
   DBusObjectSubtree **arr = g_node->subtrees, **d = dest, **s = (DBusObjectSubtree **) src;
@@ -133,6 +140,7 @@ void *memmove (void *dest, const void *src, size_t nbytes)
   if (in_arr) arr[verif_gk] = val;
   return dest;
 }
+#endif
 dbus_int32_t _dbus_atomic_inc (DBusAtomic *atomic) { dbus_int32_t old = atomic->value; atomic->value = old + 1; return old; }
 dbus_int32_t _dbus_atomic_dec (DBusAtomic *atomic) { dbus_int32_t old = atomic->value; atomic->value = old - 1; return old; }
 #endif
